@@ -1,4 +1,5 @@
 import CoapVerif.Model.MsgLayer
+import CoapVerif.Spec.SendQueue
 /- Line-protocol driver for the message-layer properties (C06, C08): interprets one scenario line with the model
 `Coap.Msg` and a scripted peer, printing the same canonical trace as harness/msg.c.
 
@@ -11,11 +12,14 @@ import CoapVerif.Model.MsgLayer
              A<D>+<E> the ACK arrives twice, after D and after E ticks;   R<D>+<E> likewise for RST
     ev     s:S:c|n:MID:R   application sends CON/NON (token = MID, PRNG byte R)
            t:DT            let DT ticks pass (arrivals in between are delivered at their time), then run the timers
-           n               sleep for the wait the last timer run returned (or until the next arrival), deliver, run the timers
-           g:K             run the timers, then repeat `n` at most K times, stop when nothing is pending
+           n               run the timers, then sleep for the returned wait (again and again) until the earliest queued deadline
+                           or the next arrival is reached; arrivals are delivered at their time; run the timers
+           g:K             repeat `n` at most K times, stop when nothing is pending
            a:S:MID r:S:MID b:S:MID o:S:MID:TOK   an ACK / RST / invalid-code ACK / NON response (token TOK) arrives now
            h:S u:S f:S     session no longer established / coap_session_connected / coap_session_disconnected(NOT_DELIVERABLE)
   sq <ops…>               raw queue operations (see `sqStep`)
+  trace tokens: tx@T:S:C|N:MID:=  nack@T:S:reason:MID  nackx@… (sent = NULL)  rsp@T:S:MID  sub=MID|rej
+                w@T=MS/E (wait returned by prepare / time to the earliest queued deadline)  [con_active,…;delayq len,…;s.mid.deadline.cnt,…]
 -/
 -- DRIVER-OPS: msg => Coap.Driver.Msg.msgStep
 -- DRIVER-OPS: sq => Coap.Driver.Msg.sqStep
@@ -46,6 +50,7 @@ structure Sim where
   seq : Nat
   seen : Nat                -- number of outputs already scanned for transmissions
   lastWait : Nat
+  es : List Nat := []       -- per logged wait (newest first): time from `now` to the earliest deadline in the queue (0: none)
   deriving Repr
 
 def nats (s : String) (sep : Char) : Option (List Nat) := (s.split (· == sep)).toList.mapM (·.toString.toNat?)
@@ -95,8 +100,11 @@ def ev (sm : Sim) (e : Ev) : Sim := react { sm with l := step sm.l e }
 
 def doPrepare (sm : Sim) : Sim :=
   let sm := ev sm .prepare
+  let e := match sm.l.q.nodes with
+    | [] => 0
+    | h :: _ => sm.l.q.base + h.t - sm.l.now
   match sm.l.out with
-  | .wait _ w :: _ => { sm with lastWait := w }
+  | .wait _ w :: _ => { sm with lastWait := w, es := e :: sm.es }
   | _ => sm
 
 /-- deliver, at their own time, the arrivals due up to `target` -/
@@ -114,23 +122,43 @@ def deliverUpTo : Nat → Sim → Nat → Sim
       else sm
 
 def advance (sm : Sim) (target : Nat) : Sim :=
-  let sm := deliverUpTo (sm.pend.length + 1) sm target
+  let sm := deliverUpTo 100000 sm target
   let sm := if target > sm.l.now then ev sm (.setNow target) else sm
   doPrepare sm
 
-def next (sm : Sim) : Sim :=
-  let byWait := if sm.lastWait > 0 then some (sm.l.now + sm.lastWait) else none
+def lastE (sm : Sim) : Nat := sm.es.headD 0
+
+/-- `n`: run the timers, then sleep (for the returned wait, repeatedly) until the earliest queued deadline or the
+next arrival has been reached.  Returns `none` when there was nothing to wait for. -/
+def next (sm : Sim) : Option Sim :=
+  let sm := doPrepare sm
+  let byE := if lastE sm > 0 then some (sm.l.now + lastE sm) else none
   let byArr := sm.pend.head?.map (·.time)
-  let target := match byWait, byArr with
-    | some a, some b => min a b
-    | some a, none => a
-    | none, some b => b
-    | none, none => sm.l.now
-  advance sm target
+  let goal := match byE, byArr with
+    | some a, some b => some (min a b)
+    | some a, none => some a
+    | none, some b => some b
+    | none, none => none
+  match goal with
+  | none => none
+  | some goal =>
+    let rec loop : Nat → Sim → Sim
+      | 0, sm => sm
+      | g + 1, sm =>
+        if sm.l.now < goal then
+          let nxt := if sm.lastWait > 0 then sm.l.now + sm.lastWait else goal
+          let nxt := match sm.pend.head? with
+            | some a => if a.time < nxt then a.time else nxt
+            | none => nxt
+          loop g (advance sm nxt)
+        else sm
+    some (loop 64 sm)
 
 def go : Nat → Sim → Sim
   | 0, sm => sm
-  | k + 1, sm => if sm.lastWait = 0 ∧ sm.pend.isEmpty then sm else go k (next sm)
+  | k + 1, sm => match next sm with
+    | none => doPrepare sm
+    | some sm' => go k sm'
 
 def applyEv (sm : Sim) (w : String) : Option Sim :=
   match (w.split (· == ':')).toList.map (·.toString) with
@@ -138,8 +166,8 @@ def applyEv (sm : Sim) (w : String) : Option Sim :=
     let s ← s.toNat?; let mid ← mid.toNat?; let r ← r.toNat?
     if c = "c" then some (ev sm (.submit s true mid r)) else if c = "n" then some (ev sm (.submit s false mid r)) else none
   | ["t", dt] => do let dt ← dt.toNat?; some (advance sm (sm.l.now + dt))
-  | ["n"] => some (next sm)
-  | ["g", k] => do let k ← k.toNat?; some (go k (doPrepare sm))
+  | ["n"] => some ((next sm).getD (doPrepare sm))
+  | ["g", k] => do let k ← k.toNat?; some (go k sm)
   | ["a", s, mid] => do let s ← s.toNat?; let mid ← mid.toNat?; some (ev sm (.rxAck s mid))
   | ["r", s, mid] => do let s ← s.toNat?; let mid ← mid.toNat?; some (ev sm (.rxRst s mid))
   | ["b", s, mid] => do let s ← s.toNat?; let mid ← mid.toNat?; some (ev sm (.rxBad s mid))
@@ -183,7 +211,13 @@ def msgStep (args : List String) : String :=
           match applyEv sm w with
           | none => none
           | some sm' =>
-            let news := (sm'.l.out.reverse.drop shown).map showOut
+            let olds := sm'.l.out.reverse.take shown
+            let nw0 := (olds.filter fun o => match o with | .wait .. => true | _ => false).length
+            let es := sm'.es.reverse
+            let (news, _) := (sm'.l.out.reverse.drop shown).foldl (fun (acc : List String × Nat) o =>
+              match o with
+              | .wait .. => (acc.1 ++ [showOut o ++ "/" ++ toString (es.getD acc.2 0)], acc.2 + 1)
+              | _ => (acc.1 ++ [showOut o], acc.2)) ([], nw0)
             loop sm' sm'.l.out.length (acc ++ news ++ [dump sm'.l]) ws
       match loop sm0 0 [] evs with
       | some toks => "M " ++ String.intercalate " " toks
@@ -232,15 +266,37 @@ def sqApply (q : Queue) (w : String) : Option (Queue × String) :=
     some ({ q with nodes := rest }, commas gone)
   | _ => none
 
+/-- the same ops on S (absolute deadlines); the reference time only matters for `i` -/
+def sqApplyS (st : Nat × List Spec.SQ.Entry) (w : String) : Option (Nat × List Spec.SQ.Entry) :=
+  let (base, l) := st
+  match (w.split (· == ':')).toList.map (·.toString) with
+  | ["i", t, s, mid] => do
+    let t ← t.toNat?; let s ← s.toNat?; let mid ← mid.toNat?
+    some (base, Spec.SQ.insert l ⟨base + t, s, mid, mid⟩)
+  | ["p"] => match Spec.SQ.pop l with
+    | none => some (base, l)
+    | some (_, r) => some (base, r)
+  | ["r", s, mid] => do let s ← s.toNat?; let mid ← mid.toNat?; some (base, (Spec.SQ.remove l s mid).2)
+  | ["j", now] => do let now ← now.toNat?; some (now, Spec.SQ.adjust l now)
+  | ["c", s] => do let s ← s.toNat?; some (base, (Spec.SQ.cancelSession l s).2)
+  | ["k", s, tok] => do let s ← s.toNat?; let tok ← tok.toNat?; some (base, l.filter fun e => ¬ (e.sess = s ∧ e.tok = tok))
+  | _ => none
+
 def sqStep (args : List String) : String :=
   let rec loop (q : Queue) (acc : List String) : List String → Option (List String)
     | [] => some (acc ++ [showQ q])
     | w :: ws => match sqApply q w with
       | none => none
       | some (q', r) => loop q' (acc ++ [r]) ws
-  match loop { base := 1000, nodes := [] } [] args with
-  | some toks => "M " ++ String.intercalate " " toks
-  | none => "bad-op"
+  let rec loopS (st : Nat × List Spec.SQ.Entry) : List String → Option (List Spec.SQ.Entry)
+    | [] => some st.2
+    | w :: ws => match sqApplyS st w with
+      | none => none
+      | some st' => loopS st' ws
+  match loop { base := 1000, nodes := [] } [] args, loopS (1000, []) args with
+  | some toks, some es =>
+    "M " ++ String.intercalate " " toks ++ " | S " ++ commas (es.map fun e => s!"{e.sess}.{e.mid}.{e.deadline}")
+  | _, _ => "bad-op"
 
 /-- `tmo atI atF arfI arfF r` → coap_calc_timeout -/
 def tmoStep (args : List String) : String :=
